@@ -45,6 +45,10 @@ var taskIDs = Slot{Name: "TaskID", Def: 0, Dom: []Val{
 
 var keys = []byte{0, 1, 2}
 
+// ivKeys: sessions whose IV sits at a carry boundary of the CTR block counter (seam.IV);
+// every single-command case runs under each of them as well.
+var ivKeys = []byte{0xf1, 0xf2, 0xf3, 0xf4, 0xf5}
+
 const fullProductCap = 50000 // thorough: rows whose whole value product is at most this are enumerated completely
 
 // slotsOf returns the row's slots plus the task id as last slot.
@@ -149,7 +153,7 @@ func defaultCase(v *Variant, tid int) Case {
 func experiments(vs []*Variant, thorough bool) (list []Experiment, nSingles, nBatches int) {
 	for _, v := range vs {
 		for _, c := range singleCases(v, thorough) {
-			for _, k := range keys {
+			for _, k := range append(append([]byte{}, keys...), ivKeys...) {
 				list = append(list, Experiment{Cases: []Case{c}, Key: k})
 				nSingles++
 			}
@@ -246,7 +250,7 @@ func Run(r *ev.Run) {
 	r.Bounds["table_rows"] = len(vs)
 	r.Bounds["single_command_cases"] = nSingles
 	r.Bounds["batch_cases"] = nBatches
-	r.Bounds["keys"] = "seam.Key(0) all-zero, seam.Key(1), seam.Key(2)"
+	r.Bounds["keys"] = "seam.Key(0) all-zero, seam.Key(1), seam.Key(2); single-command cases also under 5 sessions whose IV ends ff ff ff ff, ff ff ff f0, is all ff, has its low 8 bytes ff, or only its last byte ff (the CTR counter carries within the first blocks of a body)"
 	r.Bounds["string_domain"] = `"", "a", "é", C:\x y (or a typical name), 300 x "A", "日本", "a"+U+1F600, U+1F600 U+1F601 U+1F602 ".txt"; dir paths also C:, C:\x y\, \\srv\share, \\srv\share\d, .`
 	r.Bounds["integer_domain"] = "0, 1, 2^31-1, 2^31, 2^32-1 (decimal, or hexadecimal for ids/handles/LUIDs/offsets)"
 	r.Bounds["blob_lengths"] = "0, 1, 17"
@@ -321,6 +325,22 @@ func runWorker(r *ev.Run, src *demonSource, list []Experiment, i, n int, vs []*V
 	}
 	for _, k := range keys {
 		ts.MustRegister(agentID(k), k)
+	}
+	for _, k := range ivKeys {
+		// what is judged here is the task stream, not how the registration was read: if
+		// the teamserver cannot read a registration under this IV, the session is
+		// registered under an ordinary one and given the IV afterwards
+		if r := ts.Register(agentID(k), k); r.Panic != nil || r.Status != 200 || ts.Agent(agentID(k)) == nil {
+			a := ts.T.AgentInstance(int(agentID(k)))
+			if a == nil {
+				ts.Post(demonwire.Register(agentID(k), seam.Key(k), seam.IV(1), demonwire.DefaultMeta(agentID(k))))
+				a = ts.Agent(agentID(k))
+			}
+			if a == nil {
+				harnessError("no session for key index %#x", k)
+			}
+			a.Encryption.AESIv = seam.IV(k)
+		}
 	}
 	w := &worker{r: r, src: src, ts: ts, start: time.Now()}
 	limit := 60 * time.Second
